@@ -35,7 +35,8 @@ RULE = (
     "java/byid/shuffled; final newline kept or stripped), optionally a second 'shadow' Solver used alternately on the same "
     "backend and a configured solver_timeout, and 1-3 find_answer/solve calls; non-trivial = some call whose text was "
     "compared by denotation on a domain where the posted constraints are neither valid nor unsatisfiable, or a scripted "
-    "satisfiable reply reflected into >=1 variable; distinct = distinct event-log SHA-256"
+    "satisfiable reply reflected into >=1 variable; distinct = distinct event-log SHA-256"    "; 4% of the runs are programs of 12-30 variables whose description is compared with the reference on sampled assignments "
+    "(witness, boundary, random) instead of on all of them"
 )
 STATE_MEASURE = "distinct CSP descriptions received by the peer (SHA-256 of the text)"
 COMPONENTS = {
